@@ -97,6 +97,10 @@ class R1Obs(Observer):
 
 
 MUTANTS = [
+    ("union skips the deepest level of a finer operand",
+     "AegeanTools/regions.py",
+     "            for d in range(self.maxdepth+1, other.maxdepth+1):",
+     "            for d in range(self.maxdepth+1, other.maxdepth):", "C08-R3"),
     ("add_pixels drops pixel identifiers that fail 0 < p",
      "AegeanTools/regions.py",
      "        self.pixeldict[depth].update(set(pix))",
@@ -584,8 +588,8 @@ def _helper_returns_demoted(h, param):
             h.node, r.value, param, ("get_demoted",)) for r in rets)
 
 
-def r3(ctx, ci):
-    ctx.rule("C08-R3", "without/intersect/symmetric_difference apply "
+def r3(ctx, ci, rule="C08-R3"):
+    ctx.rule(rule, "without/intersect/symmetric_difference apply "
              "difference_update/intersection_update/"
              "symmetric_difference_update to self.pixeldict[self.maxdepth], "
              "after self._demote_all(), with an operand data-dependent on "
@@ -612,7 +616,7 @@ def r3(ctx, ci):
                 o = levelset_owner(n.func.value, al)
                 if o and o[0] == "self":
                     ops.append((n, o))
-        ctx.check("C08-R3", fi, "set operation of %s" % m,
+        ctx.check(rule, fi, "set operation of %s" % m,
                   len(ops) == 1 and ops[0][0].func.attr == setop,
                   "expected exactly one in-place %s on the deepest level "
                   "set of self, found %s" %
@@ -622,7 +626,7 @@ def r3(ctx, ci):
         if len(ops) != 1:
             continue
         call, (_, level) = ops[0]
-        ctx.check("C08-R3", fi, "level of the operated set in %s" % m,
+        ctx.check(rule, fi, "level of the operated set in %s" % m,
                   norm(level) == "self.maxdepth",
                   "the set operation must act on level self.maxdepth "
                   "(the demoted representation), found level %s" %
@@ -641,7 +645,7 @@ def r3(ctx, ci):
                     ex = r_
             dep = any(b is not None and _helper_returns_demoted(h, b)
                       for c_, h, b in _helper_calls(ci, ex))
-        ctx.check("C08-R3", fi, "operand of the set operation in %s" % m,
+        ctx.check(rule, fi, "operand of the set operation in %s" % m,
                   dep, "operand %s is not derived from other.get_demoted()"
                   % (norm(call.args[0]) if call.args else "<none>"),
                   node=call)
@@ -660,12 +664,12 @@ def r3(ctx, ci):
             for x in ast.walk(s))]
         ok_dem = bool(opn) and any(g.dominates(d, opn[0]) and d != opn[0]
                                    for d in dem)
-        ctx.check("C08-R3", fi, "demote-before-operate in %s" % m, ok_dem,
+        ctx.check(rule, fi, "demote-before-operate in %s" % m, ok_dem,
                   "self._demote_all() does not dominate the set operation: "
                   "coarser-level pixels of self would be ignored", node=call)
         ok_ren = bool(opn) and \
             g.path_avoiding(opn[0], EXIT, set(ren)) is None
-        ctx.check("C08-R3", fi, "renorm-after-operate in %s" % m, ok_ren,
+        ctx.check(rule, fi, "renorm-after-operate in %s" % m, ok_ren,
                   "a path from the set operation reaches the return without "
                   "self._renorm() (normal form / cache reset)", node=call)
         # a normal return that skips the set operation is only allowed
@@ -691,7 +695,7 @@ def r3(ctx, ci):
                                               "symmetric_difference_update")
                         why = "taken when the operand is empty (`%s`)" % \
                             norm(g.stmt[nd].test)
-                ctx.check("C08-R3", fi, "every normal return of %s applies "
+                ctx.check(rule, fi, "every normal return of %s applies "
                           "the set operation" % m, explained,
                           "the path %s returns without %s%s: %s" % (
                               g.describe(bypass), setop,
@@ -703,7 +707,7 @@ def r3(ctx, ci):
                               "operation is not the identity there"),
                           node=call, path=g.describe(bypass))
             else:
-                ctx.ob("C08-R3", fi, "every normal return of %s applies the "
+                ctx.ob(rule, fi, "every normal return of %s applies the "
                        "set operation" % m, True, {}, call)
         # equal-depth guard: an If whose test compares self.maxdepth with
         # other.maxdepth and whose failing branch raises, dominating the op
@@ -738,7 +742,7 @@ def r3(ctx, ci):
                         if h.params[1:2] == ["other"] and \
                                 raising_depth_guard(h.node.body):
                             guard_ok = True
-        ctx.check("C08-R3", fi, "equal-depth guard in %s" % m, guard_ok,
+        ctx.check(rule, fi, "equal-depth guard in %s" % m, guard_ok,
                   "no raising guard comparing self.maxdepth with "
                   "other.maxdepth dominates the set operation: operands of "
                   "different depth would be combined pixel-id-wise", node=call)
@@ -798,7 +802,7 @@ def r3(ctx, ci):
                             and c.args and norm(c.args[0]) == \
                             "other.pixeldict[%s]" % lp.target.id:
                         okc = True
-    ctx.check("C08-R3", fi, "union: common levels", okc,
+    ctx.check(rule, fi, "union: common levels", okc,
               "union must add other.pixeldict[d] into level d of self for "
               "d = 1..min(self.maxdepth, other.maxdepth)", node=fi.node)
     # deeper levels: added value is p // 4**(d - self.maxdepth)
@@ -809,7 +813,7 @@ def r3(ctx, ci):
             o = levelset_owner(c.func.value, al)
             if o and o[0] == "self":
                 found = True
-                ctx.check("C08-R3", fi, "union: promotion target level",
+                ctx.check(rule, fi, "union: promotion target level",
                           norm(o[1]) == "self.maxdepth",
                           "deeper pixels of other must be promoted to level "
                           "self.maxdepth, found %s" % norm(o[1]), node=c)
@@ -830,12 +834,30 @@ def r3(ctx, ci):
                         want = 2 * (D_ - S_) if isinstance(
                             v.op, ast.RShift) else 4 ** (D_ - S_)
                         div_ok = sp.simplify(rs - want) == 0
-                ctx.check("C08-R3", fi, "union: promotion divisor",
+                # ... for EVERY deeper level of the operand
+                lps = [l_ for l_ in walk_no_nested(fi.node)
+                       if isinstance(l_, ast.For) and
+                       isinstance(l_.target, ast.Name) and
+                       _range_bounds(l_.iter) and
+                       any(x is c for x in ast.walk(l_))]
+                if lps:
+                    lo_, hi_ = _range_bounds(lps[0].iter)
+                    ls_, hs_ = symb(lo_), symb(hi_)
+                    okr = ls_ is not None and hs_ is not None and \
+                        sp.simplify(hs_ - (O_ + 1)) == 0 and \
+                        sp.simplify(ls_ - (S_ + 1)) in (0, -1)
+                    ctx.check(rule, fi, "union: deeper levels " +
+                              norm(lps[0].iter, 60), bool(okr),
+                              "the levels self.maxdepth+1 .. other.maxdepth "
+                              "of the finer operand must all be promoted; "
+                              "the loop runs over %s" % norm(lps[0].iter),
+                              node=lps[0])
+                ctx.check(rule, fi, "union: promotion divisor",
                           shape_ok and div_ok,
                           "a pixel of level d>maxdepth maps to "
                           "p // 4**(d-maxdepth); found %s" %
                           (norm(v) if v is not None else "?"), node=c)
-    ctx.check("C08-R3", fi, "union: deeper levels handled", found,
+    ctx.check(rule, fi, "union: deeper levels handled", found,
               "no promotion of other's deeper levels into self found",
               node=fi.node)
 
